@@ -221,6 +221,13 @@ func writetokHandle(c map[string]J) map[string]J {
 	if n := len(vtoks); n == 0 || vtoks[n-1].Kind != "end" {
 		return map[string]J{"status": "mismatch", "input": input, "what": "the written text followed by ' .' does not end in an end token", "expected": "tokens ... end", "observed": fmt.Sprint(vtoks), "sig": "C06:tokens"}
 	}
+	var chars, raw []J
+	for _, r := range text + " ." {
+		chars = append(chars, string(r))
+	}
+	for _, t := range vtoks {
+		raw = append(raw, []J{t.Kind, t.Val})
+	}
 	vtoks = vtoks[:len(vtoks)-1]
 	if len(vtoks) > 24 {
 		return map[string]J{"status": "discard", "why": "more than 24 tokens"}
@@ -295,7 +302,7 @@ func writetokHandle(c map[string]J) map[string]J {
 	_ = ops.Close()
 	varIDs := map[engine.Variable]int{}
 	term := syntaxEnc(cap.T.term, cap.T.env, varIDs)
-	return map[string]J{"status": "recorded", "input": input, "events": []J{map[string]J{"ev": "written", "term": term, "table": tab, "toks": toks, "text": text}}}
+	return map[string]J{"status": "recorded", "input": input, "events": []J{map[string]J{"ev": "written", "term": term, "table": tab, "toks": toks, "text": text, "chars": chars, "raw": raw}}}
 }
 
 // syntaxEnc encodes a term the way Syntax.tla writes terms (numbers by their canonical text).
